@@ -1,11 +1,46 @@
-(* C14 — clean() returns the shortest lexically equivalent path. *)
+(* C14 — clean() returns the shortest lexically equivalent path.
+   Statements are about Path/Clean.v (`clean`, the mirror of sys::clean, tied to the code by the
+   clean-* correspondence streams) and Path/CleanSpec.v (denotation, lex_equiv, NormalForm). *)
 From Coq Require Import List NArith.
 From RV Require Import Base.Str Base.PathLex Path.Clean Path.CleanSpec Path.CleanFacts.
 
+(* the mirror computes the canonical rendering of the path's denotation, for every string *)
 Theorem C14_clean_is_spec : forall s, clean s = Done (clean_spec s).
 Proof. exact clean_is_spec. Qed.
 Print Assumptions C14_clean_is_spec.
 
+(* never panics (prev.unwrap()), never runs out of fuel *)
 Theorem C14_clean_total : forall s, clean s <> Panic /\ clean s <> OutOfFuel.
 Proof. exact clean_total. Qed.
 Print Assumptions C14_clean_total.
+
+(* the result is in normal form: none of the six documented rules applies any more *)
+Theorem C14_clean_normal : forall s, NormalForm (clean_spec s).
+Proof. exact clean_normal. Qed.
+Print Assumptions C14_clean_normal.
+
+(* the result names the same location as the argument *)
+Theorem C14_clean_equiv : forall s, lex_equiv s (clean_spec s).
+Proof. exact clean_equiv. Qed.
+Print Assumptions C14_clean_equiv.
+
+(* it is the only normal-form path that does *)
+Theorem C14_clean_unique : forall s t, lex_equiv s t -> NormalForm t -> t = clean_spec s.
+Proof. exact clean_unique. Qed.
+Print Assumptions C14_clean_unique.
+
+Theorem C14_normal_form_fixed : forall t, NormalForm t -> clean_spec t = t.
+Proof. exact normal_form_fixed. Qed.
+Print Assumptions C14_normal_form_fixed.
+
+Theorem C14_clean_idem : forall s r, clean s = Done r -> clean r = Done r.
+Proof. exact clean_idem. Qed.
+Print Assumptions C14_clean_idem.
+
+Theorem C14_clean_preserves_absolute : forall s r, clean s = Done r -> is_absolute r = is_absolute s.
+Proof. exact clean_preserves_absolute. Qed.
+Print Assumptions C14_clean_preserves_absolute.
+
+Theorem C14_clean_nonempty : forall s r, clean s = Done r -> r <> nil.
+Proof. exact clean_nonempty. Qed.
+Print Assumptions C14_clean_nonempty.
